@@ -124,3 +124,20 @@ def nd_warm(P):
             getattr(P, a)
         except Exception:    # noqa
             pass
+
+
+def clear_all_caches():
+    """same as sx/env.py::clear_all_caches, for the plain interpreter"""
+    n = ns()
+    for mod in (n.puan, n.pg, n.pnd, n.cc):
+        for obj in list(vars(mod).values()):
+            if isinstance(obj, type):
+                for attr in list(vars(obj).values()):
+                    f = getattr(attr, "fget", attr)
+                    f = getattr(f, "__func__", f)
+                    cc_ = getattr(f, "cache_clear", None)
+                    if callable(cc_):
+                        try:
+                            cc_()
+                        except Exception:   # noqa
+                            pass
